@@ -186,8 +186,11 @@ def ambiguity(ctx):
            site=f.span)
     # the comparison is on the last path segment with the version stripped
     bodies = db.with_closures(f)
-    rf = any((t.path or "").endswith("str::rfind") and t.args[1].const_value() == ("char", ord("/")) for b in bodies for t in b.calls())
-    at = any((t.path or "").endswith("str::find") and t.args[1].const_value() == ("char", ord("@")) for b in bodies for t in b.calls())
+    def splits(names, ch):
+        return any((t.path or "").rsplit("::", 1)[-1] in names and "str" in (t.path or "") and len(t.args) > 1 and t.args[1].const_value() == ("char", ord(ch))
+                   for b in bodies for t in b.calls())
+    rf = splits(("rfind", "rsplit_once", "rsplit", "rsplitn", "rsplit_terminator"), "/")     # after the LAST '/'
+    at = splits(("find", "split_once", "split", "splitn"), "@")                               # before the FIRST '@' of that segment
     ctx.ob("R04.3", "suffix|last-segment", rf and at, "candidates are compared by their last `/` segment with the `@version` stripped" if rf and at else "suffix extraction is not (after last '/', before '@')", site=f.span)
 
 
